@@ -28,7 +28,7 @@ type Env struct {
 	st, old *State
 	pkg     *types.Package
 	bound   map[string]TV
-	resolve func(name string) (TV, bool)
+	resolve func(name string, st *State) (TV, bool)
 	inPred  bool
 }
 
@@ -40,7 +40,7 @@ func (fr *Frame) newEnv(st, old *State) *Env {
 func (fr *Frame) newEnvAt(st *State) *Env {
 	env := fr.newEnv(st, fr.entry)
 	fr.bindParams(env)
-	env.resolve = func(name string) (TV, bool) { return fr.resolveLocal(name, st, nil, nil) }
+	env.resolve = func(name string, st *State) (TV, bool) { return fr.resolveLocal(name, st, nil, nil) }
 	return env
 }
 
@@ -61,7 +61,7 @@ func (fr *Frame) bindParams(env *Env) {
 func (fr *Frame) invEnv(li *loopInfo, st *State, phiEnv map[*ssa.Phi]string) *Env {
 	env := fr.newEnv(st, fr.entry)
 	fr.bindParams(env)
-	env.resolve = func(name string) (TV, bool) { return fr.resolveLocal(name, st, li, phiEnv) }
+	env.resolve = func(name string, st *State) (TV, bool) { return fr.resolveLocal(name, st, li, phiEnv) }
 	return env
 }
 
@@ -270,7 +270,7 @@ func (e *Env) lookupName(name string) (TV, bool) {
 		return tv, true
 	}
 	if e.resolve != nil {
-		if tv, ok := e.resolve(name); ok {
+		if tv, ok := e.resolve(name, e.st); ok {
 			return tv, true
 		}
 	}
@@ -838,6 +838,22 @@ func (e *Env) evalCall(n ECall, hint types.Type) TV {
 			e.fail("typeis(x, T)")
 		}
 		return TV{term: eq(fmt.Sprintf("(ityp %s)", a.term), fmt.Sprint(vc.typeID(tt.isType))), typ: bt}
+	case "asptr":
+		// asptr(x, T): the value of interface x asserted to *T
+		a := e.eval(n.Args[0], nil)
+		tt := e.eval(n.Args[1], nil)
+		if tt.isType == nil {
+			e.fail("asptr(x, T)")
+		}
+		return TV{term: fmt.Sprintf("(ival %s)", a.term), typ: types.NewPointer(tt.isType)}
+	case "isptr":
+		// isptr(x, T): dynamic type of interface x is *T
+		a := e.eval(n.Args[0], nil)
+		tt := e.eval(n.Args[1], nil)
+		if tt.isType == nil {
+			e.fail("isptr(x, T)")
+		}
+		return TV{term: eq(fmt.Sprintf("(ityp %s)", a.term), fmt.Sprint(vc.typeID(types.NewPointer(tt.isType)))), typ: bt}
 	case "dyn":
 		// dyn(x, T): the value of interface x asserted to pointer type T
 		a := e.eval(n.Args[0], nil)
